@@ -118,6 +118,12 @@ def check_sdc(kind, tier, seed, part, nparts):
                     skipped.append(f'{nt}/{qt}/M={M}/{tag}: {why}')
                     break
                 p = None
+                Lv = make_level(sw, sp2, pk)
+                mats = [getattr(Lv.sweep, a) for a in ('QI', 'QE') if hasattr(Lv.sweep, a)]
+                if not all(np.isfinite(np.asarray(m, dtype=float)).all() for m in mats):
+                    obs.append(_ob(f'sdc[{kind},{nt},{qt},M={M},{tag},coll_update={coll_update}]:preconditioner_entries_are_finite', False,
+                                   dict(sweeper_params=str(sp2), QDelta=str(np.asarray(mats[0]).tolist())[:300])))
+                    continue
                 try:
                     for k, R, p, L in run_sdc(sw, sp2, pk, None if False else 40 if False else (make_level(sw, sp2, pk).sweep.coll.order + 2)):
                         good, info = order_ok(R, min(k, p), two_var=(pk == 'imex'))
